@@ -1054,6 +1054,97 @@ fn gamma_zero_convert_scenario(ctx: &mut Ctx, r: &mut SplitMix64) {
     }
 }
 
+/// Tempering pairs in the floating-point OVERFLOW regime of the exchange test: a hot replica
+/// (beta ~ 2) holding >= 24 operators incl. transverse and field operators next to a freshly
+/// added very cold replica (beta = k * 2^50, no operators) whose Hamiltonian gives weight 0 to
+/// some of them (h = 0 and/or Gamma = 0). The temperature factor (beta_a/beta_b)^(n_b - n_a)
+/// overflows to +inf, the Hamiltonian factor is exactly 0, the product is NaN: the exchange must
+/// NOT happen (the receiver would store zero-weight operators). Serial `tempering_step`s, every
+/// replica judged with its own Hamiltonian after every step.
+fn overflow_ladder_scenario(ctx: &mut Ctx, r: &mut SplitMix64) {
+    let nvars = r.range(3, 4) as usize;
+    let edges: Vec<((usize, usize), f64)> = (0..nvars - 1)
+        .map(|i| {
+            let mag = r.range(2, 6) as f64 / 4.0;
+            ((i, i + 1), if r.coin() { mag } else { -mag })
+        })
+        .collect();
+    let gamma = r.range(2, 5) as f64 / 4.0;
+    let hmag = r.range(2, 6) as f64 / 4.0;
+    let neg = r.coin();
+    let h_hot = if neg { -hmag } else { hmag };
+    let zero_h = if neg { -0.0 } else { 0.0 };
+    let beta_hot = r.range(6, 10) as f64 / 4.0;
+    let mut hot = G::<SplitMix64>::new_with_rng(edges.clone(), gamma, h_hot, 4, SplitMix64::new(r.next()), Some(gen_state(r, nvars)));
+    if r.chance(1, 3) {
+        hot.set_enable_heatbath(true);
+    }
+    let ne = edges.len();
+    let mut ready = false;
+    for _ in 0..200 {
+        if catch(|| {
+            hot.timestep(beta_hot);
+        })
+        .is_err()
+        {
+            return;
+        }
+        let s = snap_g(&hot);
+        let has_field = s.ops.iter().any(|o| o.bond >= ne + nvars);
+        let has_transverse = s.ops.iter().any(|o| o.bond >= ne && o.bond < ne + nvars);
+        if s.ops.len() >= 24 && has_field && has_transverse {
+            ready = true;
+            break;
+        }
+    }
+    if !ready {
+        stat("overflow.hot_not_ready", 1);
+        return;
+    }
+    // the cold replica: same lattice, h = 0 and/or Gamma = 0, never stepped
+    let (g_cold, h_cold, variant) = match r.below(3) {
+        0 => (gamma, zero_h, "h0"),
+        1 => (0.0, h_hot, "gamma0"),
+        _ => (0.0, zero_h, "h0_gamma0"),
+    };
+    let beta_cold = (1 + r.below(3)) as f64 * (2.0f64).powi(50);
+    let cold = G::<SplitMix64>::new_with_rng(edges.clone(), g_cold, h_cold, 4, SplitMix64::new(r.next()), Some(gen_state(r, nvars)));
+    let mut hot2 = G::<SplitMix64>::new_with_rng(edges.clone(), gamma, h_hot, 4, SplitMix64::new(r.next()), Some(gen_state(r, nvars)));
+    let _ = catch(|| {
+        for _ in 0..20 {
+            hot2.timestep(beta_hot);
+        }
+    });
+    stat(&format!("overflow.ladder_{}", variant), 1);
+    let mut tc: TemperingContainer<SplitMix64, G<SplitMix64>> = TemperingContainer::new(SplitMix64::new(r.next()));
+    let reps: Vec<(G<SplitMix64>, f64)> = match r.below(3) {
+        0 => vec![(hot, beta_hot), (cold, beta_cold)],
+        1 => vec![(cold, beta_cold), (hot, beta_hot)],
+        _ => vec![(hot, beta_hot), (cold, beta_cold), (hot2, beta_hot)],
+    };
+    for (g, beta) in reps {
+        emit_init_g(ctx, &g);
+        if tc.add_qmc_stepper(g, beta).is_err() {
+            stat("overflow.refused", 1);
+            return;
+        }
+    }
+    for _ in 0..6 {
+        if !tempering_step_cases(ctx, &mut tc) {
+            return;
+        }
+        // keep the hot replicas moving (the cold one stays fresh)
+        for i in 0..tc.num_graphs() {
+            let beta = tc.graph_ref()[i].1;
+            if beta < 1.0e6 && tc.graph_ref()[i].0.get_n() > 0 {
+                if !ising_single(ctx, &mut tc.graph_mut()[i].0, "diag", "single_diagonal_step", |g| g.single_diagonal_step(beta)) {
+                    return;
+                }
+            }
+        }
+    }
+}
+
 fn ising_scenario(ctx: &mut Ctx, r: &mut SplitMix64, ncalls: usize, force_h: Option<bool>) {
     let spec = gen_ising_spec(r, force_h);
     let nrep = r.range(2, 3) as usize;
@@ -2173,6 +2264,9 @@ fn main() {
                             for _ in 0..3 {
                                 gamma_zero_convert_scenario(ctx, &mut rr)
                             }
+                            for _ in 0..2 {
+                                overflow_ladder_scenario(ctx, &mut rr)
+                            }
                         }
                     }
                     _ => ising_scenario(ctx, &mut rr, ncalls, None),
@@ -2202,6 +2296,9 @@ fn main() {
                         } else if (k / 5) % 3 == 1 {
                             for _ in 0..6 {
                                 gamma_zero_convert_scenario(ctx, &mut rr)
+                            }
+                            for _ in 0..3 {
+                                overflow_ladder_scenario(ctx, &mut rr)
                             }
                         } else {
                             field_ladder_scenario(ctx, &mut rr, 32)
